@@ -204,6 +204,8 @@ class LDAWrapper(LinearSolver):
                 x0_loc[idia, ...] = 0
                 for x in x_data:
                     beta = x0_loc[isel, ...].T @ x.conj() / (x.conj() @ x)
+                    if np.iscomplexobj(x) and not np.iscomplexobj(x0_loc):
+                        x0_loc = x0_loc.astype(x.dtype)  # Stored solutions may be complex while the guess is real
                     x0_loc[isel, ...] -= np.outer(x, beta)
             else:
                 x0_loc = None
@@ -223,8 +225,9 @@ class LDAWrapper(LinearSolver):
                 badd = (A @ xnew[..., i])[isel, ...]
                 for x, b in zip(x_data, b_data):
                     beta = badd @ b.conj() / (b.conj() @ b)
-                    badd -= beta * b
-                    xadd -= beta * x
+                    # Not in-place: the stored vectors may be complex while the new ones are real
+                    badd = badd - beta * b
+                    xadd = xadd - beta * x
                 bnrm = np.linalg.norm(badd)
                 if not np.isfinite(bnrm) or bnrm == 0:
                     continue
